@@ -9,6 +9,7 @@ UNIT = dict(
   name='ops',
   properties=['C01', 'C16', 'C06', 'C07', 'C04', 'C03', 'C13'],
   shared=['isa.rs'],
+  prelude_files=['prelude.rs', 'prelude_resolve_stub.rs'],
   items=[
     ('laythe_vm/src/byte_code.rs', ['struct Label', 'enum CaptureIndex', 'enum SymbolicByteCode']),
     ('laythe_core/src/object/mod.rs', ['enum ObjectKind']),
